@@ -353,6 +353,20 @@ Definition rest_counts (s0 : st) (r t : nat) : bool :=
 Definition drop_layers (s0 : st) (r t : nat) : list (nat * nat * nat) :=
   if rest_counts s0 r t then layers s0 else f22_filter r t (layers s0).
 
+Lemma layer_del_in : forall ls r t x,
+  In x (layer_del ls r t) <-> In x ls /\ key2 r t (fst (fst x)) (snd (fst x)) = false.
+Proof.
+  intros. unfold layer_del. rewrite filter_In. rewrite negb_true_iff. tauto.
+Qed.
+
+Lemma not_cached_key : forall s r t x, cached s r t = false -> In x (layers s) ->
+  key2 r t (fst (fst x)) (snd (fst x)) = false.
+Proof.
+  intros s r t [[a b] l] C H. cbn [fst snd]. destruct (key2 r t a b) eqn:K; auto.
+  apply key2_true in K. destruct K; subst.
+  assert (cached s r t = true) by (apply cached_iff; exists l; exact H). congruence.
+Qed.
+
 Lemma drop_branch_spec : forall s0 r t c',
   let s' := fst (drop_branch s0 r t c') in
   counts s' = count_del (counts s0) r t
@@ -365,32 +379,19 @@ Proof.
     with (existsb (fun e : nat * nat * Z => Nat.eqb (fst (fst e)) r) (count_del (counts s0) r t)).
   destruct (existsb (fun e : nat * nat * Z => Nat.eqb (fst (fst e)) r) (count_del (counts s0) r t)).
   - cbn [layers counts memo pool set_counts set_layers set_memo].
-    match goal with |- context [negb (cached ?s3 r t)] => destruct (cached s3 r t) eqn:CA end; cbn [negb fst layers counts memo pool set_layers].
-    + repeat split; auto.
-      * intros H. unfold layer_del in H. apply filter_In in H. destruct H as [H K]. split; auto.
-        apply negb_true_iff in K. auto.
-      * intros [H K]. unfold layer_del. apply filter_In. split; auto. rewrite K. auto.
-    + repeat split; auto.
-      * apply H.
-      * destruct x as [[a b] l]. cbn [fst snd]. destruct (key2 r t a b) eqn:K; auto.
-        apply key2_true in K. destruct K; subst.
-        assert (cached (set_memo (set_counts s0 (count_del (counts s0) r t)) (memo_del_ref (memo s0) r)) r t = true)
-          by (apply cached_iff; exists l; exact H).
-        congruence.
-      * intros [H _]. exact H.
+    match goal with |- context [negb (cached ?s3 r t)] => destruct (cached s3 r t) eqn:CA end;
+      cbn [negb fst layers counts memo pool set_layers set_memo set_counts].
+    + split; [reflexivity|]. split; [reflexivity|]. split; [reflexivity|]. intros x. apply layer_del_in.
+    + split; [reflexivity|]. split; [reflexivity|]. split; [reflexivity|]. intros x. split.
+      * intros H. split; auto. eapply not_cached_key; [exact CA|]. exact H.
+      * tauto.
   - cbn [layers counts memo pool set_counts set_layers set_memo].
-    match goal with |- context [negb (cached ?s3 r t)] => destruct (cached s3 r t) eqn:CA end; cbn [negb fst layers counts memo pool set_layers].
-    + repeat split; auto.
-      * intros H. unfold layer_del in H. apply filter_In in H. destruct H as [H K]. split; auto.
-        apply negb_true_iff in K. auto.
-      * intros [H K]. unfold layer_del. apply filter_In. split; auto. rewrite K. auto.
-    + repeat split; auto.
-      * apply H.
-      * destruct x as [[a b] l]. cbn [fst snd]. destruct (key2 r t a b) eqn:K; auto.
-        apply key2_true in K. destruct K; subst.
-        match type of CA with cached ?s3 r t = false => assert (cached s3 r t = true) by (apply cached_iff; exists l; exact H) end.
-        congruence.
-      * intros [H _]. exact H.
+    match goal with |- context [negb (cached ?s3 r t)] => destruct (cached s3 r t) eqn:CA end;
+      cbn [negb fst layers counts memo pool set_layers set_memo set_counts].
+    + split; [reflexivity|]. split; [reflexivity|]. split; [reflexivity|]. intros x. apply layer_del_in.
+    + split; [reflexivity|]. split; [reflexivity|]. split; [reflexivity|]. intros x. split.
+      * intros H. split; auto. eapply not_cached_key; [exact CA|]. exact H.
+      * tauto.
 Qed.
 
 Lemma release_fixed_cases : forall s r t,
